@@ -1,21 +1,22 @@
 #!/bin/bash
 # tools/seed_regress.sh: apply every kept seeded change to /repo in turn, run that property's quick check, expect exit 1; restores /repo and evidence.
-cd /verif
+cd "$(dirname "$0")/.."
+REPO=${PLOTINK_REPO:-/repo}
 rm -rf /tmp/ev_bak; cp -r evidence /tmp/ev_bak
 fail=0
-for d in /verif/seeded/*/; do
+for d in seeded/*/; do
   name=$(basename $d); id=${name%%-*}
   [ -f $d/patch.diff ] || continue
-  if git -C /repo apply $d/patch.diff 2>/dev/null || git -C /repo apply --3way $d/patch.diff 2>/dev/null; then
+  if git -C $REPO apply $PWD/$d/patch.diff 2>/dev/null || git -C $REPO apply --3way $PWD/$d/patch.diff 2>/dev/null; then
     out=$(./check $id quick 2>&1); rc=$?
-    git -C /repo reset -q --hard HEAD
+    git -C $REPO reset -q --hard HEAD
     v=$(echo "$out" | grep -c "^VIOLATION"); nf=$(echo "$out" | grep -c "no-failing-input-found")
     echo "$name rc=$rc violations=$v no_input=$nf"
     [ $rc = 1 ] || fail=1
   else
-    echo "$name patch does not apply (superseded by a fix commit)"; git -C /repo reset -q --hard HEAD
+    echo "$name patch does not apply (superseded by a fix commit)"; git -C $REPO reset -q --hard HEAD
   fi
 done
 rm -rf evidence; mv /tmp/ev_bak evidence
-git -C /repo status --short | grep -v egg-info
+git -C $REPO status --short | grep -v egg-info
 exit $fail
